@@ -127,7 +127,7 @@ def corr(ctx):
 
     spec = cubed.Spec(allowed_mem="500MB", reserved_mem=0)
     reqs, exp, metas = [], [], []
-    nprog = ctx.budget(60, 500)
+    nprog = ctx.budget(60, 300)
     for _ in range(nprog):
         prog = dx.gen_dag_program(ctx.rng)
         try:
@@ -242,7 +242,7 @@ CORPUS = [
 
 
 def oracle(ctx, nprog=None):
-    nprog = nprog or ctx.budget(16, 110)
+    nprog = nprog or ctx.budget(16, 70)
     progs = list(CORPUS) if not getattr(ctx, "_c02_corpus_done", False) else []
     ctx._c02_corpus_done = True
     for j in range(len(progs) + nprog):
